@@ -1,6 +1,7 @@
 package main
 
 import (
+	"fmt"
 	"strings"
 
 	"golang.org/x/tools/go/ssa"
@@ -11,7 +12,8 @@ func init() {
 		ID: "C21",
 		Decides: "(R21.1) commit marker last: the block writer merges its database only after all queued writes were flushed (save worker waited, database Write succeeded), the block map and the suffrage proof were set; the temp database's merged marker is written only by TempLeveldb.Merge and the center publishes the temp only after that write succeeded; " +
 			"(R21.2) loader gate: at start-up a temp database is used only if it opened and carries the merged marker, all other prefixes of that height are removed, and temps are loaded strictly at last+1; " +
-			"(R21.3) permanent merge ordering: the key that makes a block visible to the permanent loader (the block map) is written only after all other batches of that block were written.; (R21.3) jobs handed to a worker read only captured variables that the submitter does not assign again (no job works on a later batch/slot than the one it was created for)",
+			"(R21.3) permanent merge ordering: the key that makes a block visible to the permanent loader (the block map) is written only after all other batches of that block were written.; (R21.3) jobs handed to a worker read only captured variables that the submitter does not assign again (no job works on a later batch/slot than the one it was created for); " +
+			"(R21.4) Redis permanent merge: an index (sorted set) member is added only after the value it names was set, and the block map step runs in the merge itself only after the concurrent jobs of every other step succeeded (the block map is the commit record of the Redis back-end)",
 		NotDecided: "enumeration of crash points; atomicity of a single leveldb batch; the local-fs part of a block.",
 		Run:        runC21,
 	})
@@ -70,26 +72,44 @@ func runC21(c *Ctx) {
 	c.Rule("R21.3", "MustPass")
 	if fn := c.Need("isaac/database.(*LeveldbPermanent).mergeTempDatabaseFromLeveldb"); fn != nil {
 		// the write that makes the block visible to loadLastBlockMap must come after worker.Wait():
-		// some Put/Batch whose key is restricted to the block-map prefix must exist after the Wait.
-		wait := c.CallsD(fn, "*.Wait()")
-		ok := false
-		if len(wait) == 1 {
-			after := reach(fn, wait[0], nil)
-			for in := range after.reached {
-				if cc := callCommon(in); cc != nil && (strings.HasSuffix(CalleeFullName(cc), ".Batch") || strings.HasSuffix(CalleeFullName(cc), ".Put")) &&
-					strings.HasPrefix(CalleeFullName(cc), "(*storage/leveldb.") {
-					ok = true
-				}
+		// a batch committed by the merge itself after the Wait succeeded (the commit batch), and
+		// every record put into any other batch is not a block map record.
+		var commit []ssa.Instruction
+		var commitVar *ssa.Alloc
+		for _, in := range c.CallsTo(fn, "(*storage/leveldb.PrefixStorage).Batch") {
+			if a := loadedVar(CallArg(in, 0)); a != nil {
+				commit = append(commit, in)
+				commitVar = a
 			}
 		}
-		c.Report(fn, "the block map (what the loader keys on) is written after all other batches were waited for", fn.Pos(), ok,
-			"all keys of the temp database, including the block map and the suffrage proofs, are copied in parallel batches; no write follows worker.Wait()")
+		c.Report(fn, "the block map (what the loader keys on) is written after all other batches were waited for", fn.Pos(), len(commit) == 1,
+			fmt.Sprintf("%d batches committed by the merge itself (outside the concurrent jobs); all keys of the temp database, including the block map, are copied in parallel batches", len(commit)))
+		if len(commit) == 1 {
+			c.MP(fn, "the commit batch is written only after every other batch was written", commit, 1, GOk("*.Wait()"))
+			c.MP(fn, "last-value caches updated only after the commit batch was written", c.CallsD(fn, "db.updateLast(*)"), 1, GOkTo("(*storage/leveldb.PrefixStorage).Batch"))
+			c.MP(fn, "success only after the commit batch was written", c.SuccessReturns(fn), 1, GOkTo("(*storage/leveldb.PrefixStorage).Batch"))
+			isMap := "bytes.HasPrefix(k, isaacdatabase.leveldbKeyPrefixBlockMap[:])"
+			nput, ncommit := 0, 0
+			for _, f := range WithClosures(fn) {
+				for _, put := range c.CallsTo(f, "(*storage/leveldb.PrefixStorageBatch).Put") {
+					nput++
+					if a := loadedVar(callCommon(put).Args[0]); a != nil && a == commitVar {
+						ncommit++
+						continue
+					}
+					c.MP(f, "a record copied by a concurrent batch is not a block map record", []ssa.Instruction{put}, 1, GFalse(isMap))
+				}
+			}
+			c.Floor(fn, "records put into batches by the merge", nput, 2)
+			c.Floor(fn, "puts into the commit batch (other records may be held back too)", ncommit, 1)
+		}
 		c.MP(fn, "last-value caches updated only after every batch was written", c.CallsD(fn, "db.updateLast(*)"), 1, GOk("*.Wait()"))
 		c.MP(fn, "success only after every batch was written", c.SuccessReturns(fn), 1, GOk("*.Wait()"))
 	}
 	// the final flush of the block writer's batch function: nothing that was queued may be dropped
 	c.Rule("R21.1", "MustPass")
 	batchSlotSaveRules(c)
+	redisMergeOrderRules(c, "R21.4")
 }
 
 // batchSlotSaveRules: a batch leaves the rotating slot of Storage.BatchFunc only through the save
@@ -198,4 +218,93 @@ func mergedMarkerRules(c *Ctx) {
 	if m := c.Need("isaac/database.(*TempLeveldb).Merge"); m != nil {
 		c.Exists(m, "Merge writes the marker of its own height", c.CallsD(m, "*.Put(isaacdatabase.leveldbTempMergedKey(db.Height()), *)"), 1)
 	}
+}
+
+// redisMergeOrderRules: the Redis permanent database has no batches; a block becomes the last
+// block of the permanent database when its block map is readable through the block map index.
+//   - the step that adds a member to an index (sorted set) adds it only after the value of that
+//     member was set: a member without its value hides every earlier member from loadLast;
+//   - the step that writes the block map index runs in the merge itself (not as one of the
+//     concurrent jobs) and only after the concurrent jobs of every other step succeeded.
+func redisMergeOrderRules(c *Ctx, rule string) {
+	const R = "isaac/database.(*RedisPermanent)."
+	c.Rule(rule, "MustPass")
+	parent := c.Need(R + "mergeTempDatabaseFromLeveldb")
+	if parent == nil {
+		return
+	}
+	var mapStep *ssa.Function
+	nidx := 0
+	var steps []*ssa.Function
+	for _, step := range c.FuncsWithPrefix(R + "merge") {
+		if step == parent || step.Parent() != nil {
+			continue
+		}
+		steps = append(steps, step)
+		for _, f := range WithClosures(step) {
+			zs := c.CallsTo(f, "(*storage/redis.Storage).ZAddArgs")
+			if len(zs) == 0 {
+				continue
+			}
+			nidx += len(zs)
+			c.MP(f, "index member added only after its value was set ("+step.Name()+")", zs, 1, GOkTo("(*storage/redis.Storage).Set"))
+			for _, z := range zs {
+				if c.D(CallArg(z, 1)) == "isaacdatabase.redisZKeyBlockMaps" {
+					mapStep = step
+				}
+			}
+		}
+	}
+	c.Floor(parent, "index writes of the Redis merge", nidx, 2)
+	if mapStep == nil {
+		c.Unresolved(parent, "block map step", "no merge step adds to isaacdatabase.redisZKeyBlockMaps")
+		return
+	}
+	var mapCalls []ssa.Instruction
+	inJob := 0
+	for _, f := range WithClosures(parent) {
+		for _, in := range allInstrs(f) {
+			if cc := callCommon(in); cc != nil && CalleeOf(cc) == mapStep {
+				if f == parent {
+					mapCalls = append(mapCalls, in)
+				} else {
+					inJob++
+				}
+			}
+		}
+	}
+	c.Report(parent, "the block map step is not one of the concurrent jobs", parent.Pos(), inJob == 0, fmt.Sprintf("%d calls inside job closures", inJob))
+	if !c.Exists(parent, "the block map step is called by the merge itself", mapCalls, 1) {
+		return
+	}
+	for _, step := range steps {
+		if step == mapStep {
+			continue
+		}
+		direct := false
+		for _, in := range allInstrs(parent) {
+			if cc := callCommon(in); cc != nil && CalleeOf(cc) == step {
+				direct = true
+			}
+		}
+		if direct {
+			c.MP(parent, "block map written only after step "+step.Name()+" succeeded", mapCalls, 1, GOkTo("(*isaac/database.RedisPermanent)."+step.Name()))
+		}
+	}
+	c.MP(parent, "block map written only after the concurrent jobs of the other steps succeeded", mapCalls, 1, GOkTo("util.RunJobWorkerByJobs"))
+	// every job closure of the merge is handed to that one RunJobWorkerByJobs call
+	runs := c.CallsTo(parent, "util.RunJobWorkerByJobs")
+	c.Exists(parent, "one concurrent run of the data steps", runs, 1)
+	c.MP(parent, "last-value caches updated only after the block map was written", c.CallsD(parent, "db.updateLast(*)"), 1, GOkTo("(*isaac/database.RedisPermanent)."+mapStep.Name()))
+	c.MP(parent, "success only after the block map was written", c.SuccessReturns(parent), 1, GOkTo("(*isaac/database.RedisPermanent)."+mapStep.Name()))
+}
+
+// loadedVar: the local variable (possibly captured) a value was loaded from, nil otherwise.
+func loadedVar(v ssa.Value) *ssa.Alloc {
+	u, ok := stripConv(v).(*ssa.UnOp)
+	if !ok {
+		return nil
+	}
+	a, _ := rootAlloc(u.X)
+	return a
 }
